@@ -10,6 +10,7 @@ CONSTANTS
   Questions <- Q0
   AllowEnd = TRUE
   MaxRequery = 0
-INVARIANTS TypeOK InOrderNoDup SlotBound NoSplice SMPSound
+  FixCommitState = TRUE
+INVARIANTS TypeOK InOrderNoDup SlotBound NoSplice SMPSound NoNilKey
 PROPERTIES TamperRejected
 CHECK_DEADLOCK FALSE
